@@ -102,6 +102,10 @@ func genCond(r *hk.Rand, id *int) *condSpec {
 func genHook(r *hk.Rand, id *int) *hookSpec {
 	*id++
 	h := &hookSpec{ID: *id, Kind: "nop"}
+	if r.Chance(6) {
+		h.Kind = "newctx"
+		return h
+	}
 	if r.Chance(12) {
 		h.Kind, h.Key, h.Val = "sethdr", hk.Pick(r, []string{"X-Hook", "X-A"}), hk.Pick(r, []string{"h1", "h2"})
 	}
@@ -274,6 +278,11 @@ func genProgram(r *hk.Rand) *program {
 		}
 		p.After = append(p.After, a)
 	}
+	lateBodyOK := false
+	switch sh.BodyKind {
+	case "none", "bytes", "string", "marshal", "func": // bodies every attempt gets a reader of its own for
+		lateBodyOK = true
+	}
 	depth := r.Range(0, 6)
 	for i := 0; i < depth; i++ {
 		var oc outcome
@@ -297,6 +306,12 @@ func genProgram(r *hk.Rand) *program {
 		}
 		if (oc.Kind == "status" || oc.Kind == "err" || oc.Kind == "deadline") && r.Chance(6) {
 			oc.WaitCancel = true
+		}
+		if oc.Kind == "status" && oc.Status >= 200 && r.Chance(8) {
+			oc.Kind = "bodyerr" // the head is in, the body breaks off while the client reads it
+		}
+		if oc.Kind == "status" && lateBodyOK && r.Chance(12) {
+			oc.LateBody = true
 		}
 		if strings.HasPrefix(oc.Kind, "status") && r.Chance(12) {
 			for i, n := 0, r.Range(1, 2); i < n; i++ {
@@ -322,6 +337,9 @@ func genProgram(r *hk.Rand) *program {
 		}
 	}
 	p.Via = hk.Pick(r, []string{"send", "send", "do", "doplain"})
+	if r.Chance(30) {
+		p.CtxVia = "middleware"
+	}
 	// the same Request object executed again (both entry points), when nothing one-shot is involved
 	mut := false
 	for _, ops := range [][]rop{p.ClientOps, p.ReqOps} {
@@ -554,6 +572,8 @@ func coqCase(p *program, o *observation) (string, bool) {
 			out = "(OStatus " + hk.CoqZ(int64(oc.Status)) + ")"
 		case "statuscancel", "statusexpired":
 			out = "(OStatusEnded " + hk.CoqZ(int64(oc.Status)) + ")"
+		case "bodyerr":
+			out = fmt.Sprintf("(OStatusErr %s 8%%Z)", hk.CoqZ(int64(oc.Status)))
 		case "wrapboth":
 			st := oc.Status
 			if st == 0 {
